@@ -118,6 +118,72 @@ theorem C09_entry_points (U : UnicodeOps) (I : IcuOps) (hI : Contract U I) :
     obtain ⟨e, hall⟩ := packetCreate_stored U xs pk he
     exact ⟨e, fun x hx => (hval true x (hu x hx)).1 (hall x hx)⟩
 
+/-- **C09_entry_points, the accepting direction** (review rA, B): a code / name that meets the CIF rules is never refused as invalid —
+    `cif_create_block`, `cif_container_create_frame`, `cif_container_create_loop` called with valid spellings answer something other than
+    their INVALID_* code (success, a duplicate, or a store error); together with `C09_entry_points` (B): refused as INVALID exactly when
+    `Spec.validName` fails. -/
+theorem C09_entry_points_accept (U : UnicodeOps) :
+    (∀ (s : Store.Store) (x : List Nat), (∀ c ∈ x, c < 0x10000) → validName false x →
+      (createBlock s (some (apiName U false x))).2 ≠ .error Gen.ErrCodes.CIF_INVALID_BLOCKCODE) ∧
+    (∀ (s : Store.Store) (p : CH) (x : List Nat), (∀ c ∈ x, c < 0x10000) → validName false x →
+      (createFrame s p (some (apiName U false x))).2 ≠ .error Gen.ErrCodes.CIF_INVALID_FRAMECODE) ∧
+    (∀ (s : Store.Store) (p : CH) (cat : Option Str) (xs : List (List Nat)), (∀ x ∈ xs, ∀ c ∈ x, c < 0x10000) →
+      (∀ x ∈ xs, validName true x) →
+      (createLoop s p cat (xs.map (apiName U true))).2 ≠ .error Gen.ErrCodes.CIF_INVALID_ITEMNAME) := by
+  refine ⟨?_, ?_, ?_⟩
+  · intro s x hu hv
+    have hvv := (C09_validity false x hu).2 hv
+    unfold createBlock
+    simp only [apiName, hvv, Bool.not_true, Bool.and_false, Bool.false_eq_true, if_false]
+    split
+    · simp [Gen.ErrCodes.CIF_ERROR, Gen.ErrCodes.CIF_INVALID_BLOCKCODE]
+    · split
+      · simp [Gen.ErrCodes.CIF_DUP_BLOCKCODE, Gen.ErrCodes.CIF_INVALID_BLOCKCODE]
+      · simp
+  · intro s p x hu hv
+    have hvv := (C09_validity false x hu).2 hv
+    unfold createFrame
+    simp only [apiName, hvv, Bool.not_true, Bool.and_false, Bool.false_eq_true, if_false]
+    split
+    · simp [Gen.ErrCodes.CIF_ERROR, Gen.ErrCodes.CIF_INVALID_FRAMECODE]
+    · split
+      · simp [Gen.ErrCodes.CIF_DUP_FRAMECODE, Gen.ErrCodes.CIF_INVALID_FRAMECODE]
+      · simp
+  · intro s p cat xs hu hv
+    have hany : (xs.map (apiName U true)).any (fun n => !n.valid) = false := by
+      rw [Bool.eq_false_iff]; intro h
+      obtain ⟨n, hn, hb⟩ := List.any_eq_true.mp h
+      obtain ⟨x, hx, rfl⟩ := List.mem_map.mp hn
+      have := (C09_validity true x (hu x hx)).2 (hv x hx)
+      simp [apiName, this] at hb
+    unfold createLoop
+    split
+    · simp [Gen.ErrCodes.CIF_NULL_LOOP, Gen.ErrCodes.CIF_INVALID_ITEMNAME]
+    · simp only [hany, Bool.false_eq_true, if_false]
+      intro he
+      have := (nest_error_iff s (createLoopBody p.id cat (xs.map (apiName U true))) Gen.ErrCodes.CIF_INVALID_ITEMNAME).1 he
+      unfold createLoopBody at this
+      split at this
+      · split at this <;> simp [Gen.ErrCodes.CIF_RESERVED_LOOP, Gen.ErrCodes.CIF_INVALID_HANDLE, Gen.ErrCodes.CIF_INVALID_ITEMNAME] at this
+      · simp only at this
+        split at this
+        · rename_i c hadd
+          -- addItems fails with CIF_DUP_ITEMNAME only
+          have hdup : ∀ (ns : List Store.Name) (d : Db) (ln : Nat) (c : Code), addItems d p.id ln ns = .error c → c = Gen.ErrCodes.CIF_DUP_ITEMNAME := by
+            intro ns
+            induction ns with
+            | nil => intro d ln c h; simp [addItems] at h
+            | cons n ns ih =>
+              intro d ln c h
+              unfold addItems at h
+              split at h
+              · cases h; rfl
+              · exact ih _ _ _ h
+          have e := hdup _ _ _ _ hadd
+          subst e
+          simp [Gen.ErrCodes.CIF_DUP_ITEMNAME, Gen.ErrCodes.CIF_INVALID_ITEMNAME] at this
+        · cases this
+
 /-- **C09, matching of block codes in the COMPOSED model** (store model of C04 + name model of C09): in a store outside any
     transaction whose stored block keys are the normal forms of the stored spellings (`BlocksNormOK (cifNormalize U)` — true of the
     empty store and PRESERVED, first conjunct) and whose id sequence is fresh (part of C04's invariant, `Inv.idFresh`): after
@@ -216,35 +282,68 @@ theorem C09_store_frame_match (U : UnicodeOps) (s s' : Store.Store) (p : CH) (a 
     · have : ¬ cifNormalize U b = cifNormalize U a := fun e => he e.symm
       simp [he, this]
 
-/-- **C09, matching of data names in the composed model.**  After `cif_container_create_loop` succeeded in container `p` with the names
-    `xs` (spellings; keys built by `apiName`): an item of container `c` is present under the key of spelling `b` — `loop_item` has a row
-    (c, `cifNormalize U b`): what makes `cif_container_get_value` / `get_item_loop` find it and what makes a second definition fail with
-    CIF_DUP_ITEMNAME (the `hasItem` test of ADD_LOOP_ITEM_SQL's primary key) — iff `c = p` and `b` has the normal form of one of the names
-    just defined, or it was present before; and the invariant `ItemsNormOK (cifNormalize U)` is preserved. -/
-theorem C09_store_item_match (U : UnicodeOps) (s s' : Store.Store) (p : CH) (cat : Option Str) (xs : List Str) (l : LH) (b : Str) (c : Nat)
-    (hn : ItemsNormOK (cifNormalize U) s.db)
+/-- **C09, matching of data names in the composed model — at API level.**  `s` satisfies the store invariant (every reachable state:
+    `C04_inv_reachable`) and keeps item keys normalised; `cif_container_create_loop` succeeded in container `p` with the names `xs`
+    (spellings; keys built by `apiName`).  Then, for every valid spelling `b`:
+    * FOUND: `cif_container_get_item_loop(p, b)` answers a loop iff `b` has the normal form of one of the names just defined, or it
+      answered a loop before; in every other case it answers CIF_NOSUCH_ITEM (never CIF_INTERNAL_ERROR);
+    * DUPLICATE: `cif_loop_add_item` through any live loop handle of `p` is refused with CIF_DUP_ITEMNAME under exactly the same condition;
+      and `cif_container_create_loop(p, …)` with a name list containing such a spelling is refused with CIF_DUP_ITEMNAME (whenever its
+      CREATE_LOOP_SQL step itself succeeds — category not the scalar one twice, container present);
+    * the invariant `ItemsNormOK (cifNormalize U)` is preserved.
+    (`cif_container_get_value` is NOT the observable here: right after `create_loop` the loop has no packet and get_value answers
+    CIF_NOSUCH_ITEM under every spelling; once values exist it reads the same `loop_item` / `item_value` keys.) -/
+theorem C09_store_item_match (U : UnicodeOps) (s s' : Store.Store) (hinv : InvS s) (p : CH) (cat : Option Str) (xs : List Str) (l : LH)
+    (b : Str) (hn : ItemsNormOK (cifNormalize U) s.db) (hvb : isValidName true b = true)
     (hc : createLoop s p cat (xs.map (apiName U true)) = (s', .ok l)) :
     ItemsNormOK (cifNormalize U) s'.db ∧
-    (s'.db.hasItem c (cifNormalize U b) = true ↔
-      ((c = p.id ∧ ∃ a ∈ xs, cifNormalize U a = cifNormalize U b) ∨ s.db.hasItem c (cifNormalize U b) = true)) := by
-  obtain ⟨hrows, _, _, _⟩ := createLoop_rows s s' p cat _ l hc
-  constructor
-  · intro i hi
-    rw [hrows] at hi
-    rcases List.mem_append.mp hi with h1 | h1
-    · exact hn i h1
-    · simp only [List.map_map, List.mem_map, Function.comp] at h1
-      obtain ⟨x, _, rfl⟩ := h1
-      rfl
-  · rw [createLoop_hasItem s s' p cat _ l hc c (cifNormalize U b)]
+    ((∃ l', (getItemLoop s' p (some (apiName U true b))).2 = .ok l') ↔
+      ((∃ a ∈ xs, cifNormalize U a = cifNormalize U b) ∨ ∃ l', (getItemLoop s p (some (apiName U true b))).2 = .ok l')) ∧
+    (¬ ((∃ a ∈ xs, cifNormalize U a = cifNormalize U b) ∨ ∃ l', (getItemLoop s p (some (apiName U true b))).2 = .ok l') →
+      (getItemLoop s' p (some (apiName U true b))).2 = .error Gen.ErrCodes.CIF_NOSUCH_ITEM) ∧
+    (∀ (l2 : LH) (v : Option V), l2.cid = p.id → s'.db.hasLoop l2.cid l2.loopNum = true →
+      ((addItem s' l2 (some (apiName U true b)) v).2 = .error Gen.ErrCodes.CIF_DUP_ITEMNAME ↔
+        ((∃ a ∈ xs, cifNormalize U a = cifNormalize U b) ∨ ∃ l', (getItemLoop s p (some (apiName U true b))).2 = .ok l'))) ∧
+    (∀ (cat2 : Option Str) (ys : List Str) (d1 : Db), (∀ y ∈ ys, isValidName true y = true) →
+      s'.db.insertLoopUnnumbered p.id cat2 = .ok d1 → b ∈ ys →
+      ((∃ a ∈ xs, cifNormalize U a = cifNormalize U b) ∨ ∃ l', (getItemLoop s p (some (apiName U true b))).2 = .ok l') →
+      (createLoop s' p cat2 (ys.map (apiName U true))).2 = .error Gen.ErrCodes.CIF_DUP_ITEMNAME) := by
+  obtain ⟨hnorm, hrow⟩ := createLoop_items_match U s s' p cat xs l b p.id hn hc
+  have hinv' : Inv s'.db := by
+    have := (createLoop_invS hinv p cat (xs.map (apiName U true))).db
+    rw [hc] at this; exact this
+  have hg : ∀ (st : Store.Store), (getItemLoop st p (some (apiName U true b))).2 = getItemLoopInternal st.db p.id (cifNormalize U b) := by
+    intro st; simp [getItemLoop, apiName, hvb]
+  obtain ⟨hok, _⟩ := getItemLoopInternal_ok_iff s.db hinv.db p.id (cifNormalize U b)
+  obtain ⟨hok', hno'⟩ := getItemLoopInternal_ok_iff s'.db hinv' p.id (cifNormalize U b)
+  have hcond : s'.db.hasItem p.id (cifNormalize U b) = true ↔
+      ((∃ a ∈ xs, cifNormalize U a = cifNormalize U b) ∨ ∃ l', (getItemLoop s p (some (apiName U true b))).2 = .ok l') := by
+    rw [hrow, hg s, hok]
     constructor
-    · rintro (⟨h1, n, hn', h2⟩ | h)
-      · obtain ⟨x, hx, rfl⟩ := List.mem_map.mp hn'
-        exact Or.inl ⟨h1, x, hx, h2⟩
+    · rintro (⟨_, h⟩ | h)
+      · exact Or.inl h
       · exact Or.inr h
-    · rintro (⟨h1, x, hx, h2⟩ | h)
-      · exact Or.inl ⟨h1, apiName U true x, List.mem_map.mpr ⟨x, hx, rfl⟩, h2⟩
+    · rintro (h | h)
+      · exact Or.inl ⟨rfl, h⟩
       · exact Or.inr h
+  refine ⟨hnorm, ?_, ?_, ?_, ?_⟩
+  · rw [hg s', hok', hcond]
+  · intro hneg
+    rw [hg s']
+    apply hno'
+    cases hh : s'.db.hasItem p.id (cifNormalize U b) with
+    | false => rfl
+    | true => exact absurd (hcond.1 hh) hneg
+  · intro l2 v hl2 hlive
+    rw [addItem_dup_iff s' l2 _ v (by simp [apiName, hvb]) hlive]
+    have hk : (apiName U true b).key = cifNormalize U b := rfl
+    rw [hk, hl2, hcond]
+  · intro cat2 ys d1 hys hins hb hmatch
+    apply createLoop_dup s' p cat2 _ d1 ?_ hins
+    · exact ⟨apiName U true b, List.mem_map.mpr ⟨b, hb, rfl⟩, by simpa [apiName] using hcond.2 hmatch⟩
+    · intro n hn'
+      obtain ⟨y, hy, rfl⟩ := List.mem_map.mp hn'
+      simp [apiName, hys y hy]
 
 -- non-vacuity ------------------------------------------------------------------------------------------------------------
 /-- create `Ab` in the empty store, then look up `ab` and `AB` (toy folding: `A` ↦ `a`): both find the block created as `Ab` -/
